@@ -191,3 +191,9 @@ func VerifH_C27_requires_client_cert() {
 	vr.Assert(requiresClientCert(m) == (m == RequireAnyClientCert || m == RequireAndVerifyClientCert), "only the two Require modes demand a certificate")
 	vr.Cover("done")
 }
+
+// C27: possession of the certified key — the shared handshake-signature check
+// (ServerKeyExchange, CertificateVerify in every version) accepts only under a key
+// of the signature type's family. Same harness as C03's TLS dispatch check.
+// verif: covers=accepted,rejected
+func VerifH_C27_handshake_signature_needs_matching_key() { VerifH_C03_tls_verify_handshake_signature() }
